@@ -48,12 +48,12 @@ def b_energy(cl, mod, H, which):
         pre = And(zin, line == H[macro], nonneg(names))
         if assume_rate_implies_energy:
             pre = And(pre, *[Implies(R(n) > 0, E(n) > 0) for n in names])
-        cl.add('C10/%s/value' % tag, ev, And(pre, num > 0), okfail(num / den),
+        cl.add('C10/%s/value' % tag, ev, And(pre, den > 0), okfail(num / den),
                '%s energy = sum(E_i r_i)/sum(r_i) over its members %s that have an energy' % (macro, names), functions=fns)
-        cl.add('C10/%s/fail' % tag, ev, And(pre, Not(num > 0)), fail, '%s: error when no member has rate and energy' % macro, functions=fns)
+        cl.add('C10/%s/fail' % tag, ev, And(pre, Not(den > 0)), fail, '%s: error when no member has rate and energy' % macro, functions=fns)
         if len(names) <= 3:
             es = [E(n) for n in names]
-            cl.add('C10/%s/between' % tag, ev, And(pre, num > 0),
+            cl.add('C10/%s/between' % tag, ev, And(pre, den > 0),
                    And(Or(*[And(e > 0, r.rv >= e) for e in es]), Or(*[r.rv <= e for e in es])),
                    '%s lies between its smallest and largest member energy' % macro, functions=fns)
 
@@ -63,14 +63,17 @@ def b_energy(cl, mod, H, which):
         names = [n for n in members_all if re.fullmatch(r'K[MNOP]\d?', n) and n not in ('KO', 'KP')]
         # the KO / KP group slots carry the rate of the whole K-O / K-P group (radrate.dat) and take the energy that the
         # public API reports for them, i.e. that of their first member (KO1 / KP1)
-        num = sum([E(n) * R(n) for n in names], RealVal(0)) + E('KO1') * R('KO') + E('KP1') * R('KP')
-        den = sum([If(E(n) > 0, R(n), RealVal(0)) for n in names], RealVal(0)) + If(E('KO1') > 0, R('KO'), 0) + If(E('KP1') > 0, R('KP'), 0)
+        # flat guarded sums: a member contributes iff it has an energy
+        num = RealVal(0); den = RealVal(0)
+        for n in names + ['KO', 'KP']:
+            en = E({'KO': 'KO1', 'KP': 'KP1'}.get(n, n))
+            num = num + If(en > 0, en * R(n), 0); den = den + If(en > 0, R(n), 0)
         allm = names + ['KO', 'KP']
         pre = And(zin, line == H['KB_LINE'], nonneg(allm))
-        cl.add('C10/KB/value', ev, And(pre, num > 0), okfail(num / den),
+        cl.add('C10/KB/value', ev, And(pre, den > 0), okfail(num / den),
                'KB energy = rate-weighted mean over the K-M, K-N, K-O, K-P members (%d lines + the KO/KP group rates at the '
                'KO1/KP1 energy), counting only members that have an energy' % len(names), functions=fns, timeout=120)
-        cl.add('C10/KB/fail', ev, And(pre, Not(num > 0)), fail, 'KB: error when no member has rate and energy', functions=fns)
+        cl.add('C10/KB/fail', ev, And(pre, Not(den > 0)), fail, 'KB: error when no member has rate and energy', functions=fns)
     if which == 'doublets':
         for d in DOUBLETS + ['LA']:
             a, b = ('L3M4', 'L3M5') if d == 'LA' else split_doublet(d)
